@@ -745,6 +745,157 @@ package adaptation
 //@                  && has(rres(r).Unified, k) == old(has(rres(r).Unified, k)) && rres(r).Unified[k] == old(rres(r).Unified[k]) && has(vres(r).Unified, k) == old(has(vres(r).Unified, k)) && vres(r).Unified[k] == old(vres(r).Unified[k])
 
 // ---------------------------------------------------------------------------
+// Update path (result.go: updateResources) — generated by gen_update.py
+// ---------------------------------------------------------------------------
+//@ pure ures(u *ContainerUpdate) = u.Linux.Resources
+//@ pure uledger(r *result, u *ContainerUpdate) = r.owners[u.ContainerId]
+//@ pure ownUpdate(r *result, u *ContainerUpdate) = r.request.update != nil && r.request.update.Container.Id == u.ContainerId
+// the resources the update starts from: the runtime's request for the container being updated, else what was collected so far
+//@ pure ubase(r *result, reply *ContainerUpdate, u *ContainerUpdate) = (ownUpdate(r, u) ? r.request.update.LinuxResources : reply.Linux.Resources)
+//@ func result.updateResources
+//@   props C01 C02 C04 C05
+//@   requires r != nil && allocated(reply) && allocated(u) && wfRO(r.owners) && allocated(reply.Linux) && allocated(reply.Linux.Resources)
+//@   requires (r.request.update != nil ==> allocated(r.request.update.Container) && allocated(r.request.update.LinuxResources))
+//@   requires u.Linux != nil && u.Linux.Resources != nil ==> allocated(ubase(r, reply, u).Memory) && allocated(ubase(r, reply, u).Cpu) && noNilHP(ubase(r, reply, u).HugepageLimits) && noNilHP(ures(u).HugepageLimits)
+//@     && ures(u) != ubase(r, reply, u) && u.Linux != reply.Linux && wfOwners(uledger(r, u)) && avoids(uledger(r, u), ures(u).Unified) && avoids(uledger(r, u), ubase(r, reply, u).Unified)
+//@   modifies mapkey(r.owners, u.ContainerId), uledger(r, u).memLimit, uledger(r, u).memReservation, uledger(r, u).memSwapLimit, uledger(r, u).memKernelLimit, uledger(r, u).memTCPLimit, uledger(r, u).memSwappiness, uledger(r, u).memDisableOomKiller, uledger(r, u).memUseHierarchy, uledger(r, u).cpuShares, uledger(r, u).cpuQuota, uledger(r, u).cpuPeriod, uledger(r, u).cpuRealtimeRuntime, uledger(r, u).cpuRealtimePeriod, uledger(r, u).cpusetCpus, uledger(r, u).cpusetMems, uledger(r, u).blockioClass, uledger(r, u).rdtClass, uledger(r, u).pidsLimit, uledger(r, u).hugepageLimits, map(uledger(r, u).hugepageLimits), uledger(r, u).unified, map(uledger(r, u).unified), reply.Linux.Resources, r.request.update.LinuxResources
+//@   keep [wf]     wfRO(r.owners) && allocated(reply.Linux) && (r.request.update != nil ==> allocated(r.request.update.Container))
+//@   keep before LinuxResources.Copy#3 [stage]  reply.Linux.Resources == old(reply.Linux.Resources) && (r.request.update != nil ==> r.request.update.LinuxResources == old(r.request.update.LinuxResources))
+//@   keep [same]   old(has(r.owners, u.ContainerId)) ==> has(r.owners, u.ContainerId) && uledger(r, u) == old(uledger(r, u))
+//@   keep [new]    !old(has(r.owners, u.ContainerId)) && has(r.owners, u.ContainerId) ==> fresh(uledger(r, u)) && zeroedexcept(uledger(r, u), "memLimit", "memReservation", "memSwapLimit", "memKernelLimit", "memTCPLimit", "memSwappiness", "memDisableOomKiller", "memUseHierarchy", "cpuShares", "cpuQuota", "cpuPeriod", "cpuRealtimeRuntime", "cpuRealtimePeriod", "cpusetCpus", "cpusetMems", "blockioClass", "rdtClass", "pidsLimit", "hugepageLimits", "unified")
+//@   keep [hpmap]  uledger(r, u).hugepageLimits == nil || uledger(r, u).hugepageLimits == old(uledger(r, u).hugepageLimits) || fresh(uledger(r, u).hugepageLimits)
+//@   keep [unimap] uledger(r, u).unified == nil || uledger(r, u).unified == old(uledger(r, u).unified) || fresh(uledger(r, u).unified)
+//@   keep [absent] !has(r.owners, u.ContainerId) ==> !old(has(r.owners, u.ContainerId))
+//@   keep [sep]    u.Linux != nil && u.Linux.Resources != nil ==> wfOwners(uledger(r, u)) && avoids(uledger(r, u), ures(u).Unified)
+//@   keep after LinuxResources.Copy#1 [copy] allocated(resources) && fresh(resources) && allocated(resources.Memory) && fresh(resources.Memory) && allocated(resources.Cpu) && fresh(resources.Cpu)
+//@   keep after LinuxResources.Copy#1 [copyhp] (resources.HugepageLimits == nil || fresh(resources.HugepageLimits)) && noNilHP(ures(u).HugepageLimits) && noNilHP(resources.HugepageLimits)
+//@   keep after LinuxResources.Copy#1 [copyu] (resources.Unified == nil || fresh(resources.Unified)) && avoids(uledger(r, u), resources.Unified) && (resources.Unified != nil ==> resources.Unified != ures(u).Unified)
+//@   keep before resultOwners.claimMemLimit#1 [memLimit.own] uledger(r, u).memLimit == old(uledger(r, u).memLimit)
+//@   keep after resultOwners.claimMemLimit#1 [memLimit.post] (!(ures(u).Memory != nil && ures(u).Memory.Limit != nil) ==> uledger(r, u).memLimit == old(uledger(r, u).memLimit)) && ((ures(u).Memory != nil && ures(u).Memory.Limit != nil) ==> old(uledger(r, u).memLimit) == "" && uledger(r, u).memLimit == plugin && resources.Memory.Limit != nil && resources.Memory.Limit.Value == ures(u).Memory.Limit.Value)
+//@   keep before resultOwners.claimMemReservation#1 [memReservation.own] uledger(r, u).memReservation == old(uledger(r, u).memReservation)
+//@   keep after resultOwners.claimMemReservation#1 [memReservation.post] (!(ures(u).Memory != nil && ures(u).Memory.Reservation != nil) ==> uledger(r, u).memReservation == old(uledger(r, u).memReservation)) && ((ures(u).Memory != nil && ures(u).Memory.Reservation != nil) ==> old(uledger(r, u).memReservation) == "" && uledger(r, u).memReservation == plugin && resources.Memory.Reservation != nil && resources.Memory.Reservation.Value == ures(u).Memory.Reservation.Value)
+//@   keep before resultOwners.claimMemSwapLimit#1 [memSwapLimit.own] uledger(r, u).memSwapLimit == old(uledger(r, u).memSwapLimit)
+//@   keep after resultOwners.claimMemSwapLimit#1 [memSwapLimit.post] (!(ures(u).Memory != nil && ures(u).Memory.Swap != nil) ==> uledger(r, u).memSwapLimit == old(uledger(r, u).memSwapLimit)) && ((ures(u).Memory != nil && ures(u).Memory.Swap != nil) ==> old(uledger(r, u).memSwapLimit) == "" && uledger(r, u).memSwapLimit == plugin && resources.Memory.Swap != nil && resources.Memory.Swap.Value == ures(u).Memory.Swap.Value)
+//@   keep before resultOwners.claimMemKernelLimit#1 [memKernelLimit.own] uledger(r, u).memKernelLimit == old(uledger(r, u).memKernelLimit)
+//@   keep after resultOwners.claimMemKernelLimit#1 [memKernelLimit.post] (!(ures(u).Memory != nil && ures(u).Memory.Kernel != nil) ==> uledger(r, u).memKernelLimit == old(uledger(r, u).memKernelLimit)) && ((ures(u).Memory != nil && ures(u).Memory.Kernel != nil) ==> old(uledger(r, u).memKernelLimit) == "" && uledger(r, u).memKernelLimit == plugin && resources.Memory.Kernel != nil && resources.Memory.Kernel.Value == ures(u).Memory.Kernel.Value)
+//@   keep before resultOwners.claimMemTCPLimit#1 [memTCPLimit.own] uledger(r, u).memTCPLimit == old(uledger(r, u).memTCPLimit)
+//@   keep after resultOwners.claimMemTCPLimit#1 [memTCPLimit.post] (!(ures(u).Memory != nil && ures(u).Memory.KernelTcp != nil) ==> uledger(r, u).memTCPLimit == old(uledger(r, u).memTCPLimit)) && ((ures(u).Memory != nil && ures(u).Memory.KernelTcp != nil) ==> old(uledger(r, u).memTCPLimit) == "" && uledger(r, u).memTCPLimit == plugin && resources.Memory.KernelTcp != nil && resources.Memory.KernelTcp.Value == ures(u).Memory.KernelTcp.Value)
+//@   keep before resultOwners.claimMemSwappiness#1 [memSwappiness.own] uledger(r, u).memSwappiness == old(uledger(r, u).memSwappiness)
+//@   keep after resultOwners.claimMemSwappiness#1 [memSwappiness.post] (!(ures(u).Memory != nil && ures(u).Memory.Swappiness != nil) ==> uledger(r, u).memSwappiness == old(uledger(r, u).memSwappiness)) && ((ures(u).Memory != nil && ures(u).Memory.Swappiness != nil) ==> old(uledger(r, u).memSwappiness) == "" && uledger(r, u).memSwappiness == plugin && resources.Memory.Swappiness != nil && resources.Memory.Swappiness.Value == ures(u).Memory.Swappiness.Value)
+//@   keep before resultOwners.claimMemDisableOomKiller#1 [memDisableOomKiller.own] uledger(r, u).memDisableOomKiller == old(uledger(r, u).memDisableOomKiller)
+//@   keep after resultOwners.claimMemDisableOomKiller#1 [memDisableOomKiller.post] (!(ures(u).Memory != nil && ures(u).Memory.DisableOomKiller != nil) ==> uledger(r, u).memDisableOomKiller == old(uledger(r, u).memDisableOomKiller)) && ((ures(u).Memory != nil && ures(u).Memory.DisableOomKiller != nil) ==> old(uledger(r, u).memDisableOomKiller) == "" && uledger(r, u).memDisableOomKiller == plugin && resources.Memory.DisableOomKiller != nil && resources.Memory.DisableOomKiller.Value == ures(u).Memory.DisableOomKiller.Value)
+//@   keep before resultOwners.claimMemUseHierarchy#1 [memUseHierarchy.own] uledger(r, u).memUseHierarchy == old(uledger(r, u).memUseHierarchy)
+//@   keep after resultOwners.claimMemUseHierarchy#1 [memUseHierarchy.post] (!(ures(u).Memory != nil && ures(u).Memory.UseHierarchy != nil) ==> uledger(r, u).memUseHierarchy == old(uledger(r, u).memUseHierarchy)) && ((ures(u).Memory != nil && ures(u).Memory.UseHierarchy != nil) ==> old(uledger(r, u).memUseHierarchy) == "" && uledger(r, u).memUseHierarchy == plugin && resources.Memory.UseHierarchy != nil && resources.Memory.UseHierarchy.Value == ures(u).Memory.UseHierarchy.Value)
+//@   keep before resultOwners.claimCpuShares#1 [cpuShares.own] uledger(r, u).cpuShares == old(uledger(r, u).cpuShares)
+//@   keep after resultOwners.claimCpuShares#1 [cpuShares.post] (!(ures(u).Cpu != nil && ures(u).Cpu.Shares != nil) ==> uledger(r, u).cpuShares == old(uledger(r, u).cpuShares)) && ((ures(u).Cpu != nil && ures(u).Cpu.Shares != nil) ==> old(uledger(r, u).cpuShares) == "" && uledger(r, u).cpuShares == plugin && resources.Cpu.Shares != nil && resources.Cpu.Shares.Value == ures(u).Cpu.Shares.Value)
+//@   keep before resultOwners.claimCpuQuota#1 [cpuQuota.own] uledger(r, u).cpuQuota == old(uledger(r, u).cpuQuota)
+//@   keep after resultOwners.claimCpuQuota#1 [cpuQuota.post] (!(ures(u).Cpu != nil && ures(u).Cpu.Quota != nil) ==> uledger(r, u).cpuQuota == old(uledger(r, u).cpuQuota)) && ((ures(u).Cpu != nil && ures(u).Cpu.Quota != nil) ==> old(uledger(r, u).cpuQuota) == "" && uledger(r, u).cpuQuota == plugin && resources.Cpu.Quota != nil && resources.Cpu.Quota.Value == ures(u).Cpu.Quota.Value)
+//@   keep before resultOwners.claimCpuPeriod#1 [cpuPeriod.own] uledger(r, u).cpuPeriod == old(uledger(r, u).cpuPeriod)
+//@   keep after resultOwners.claimCpuPeriod#1 [cpuPeriod.post] (!(ures(u).Cpu != nil && ures(u).Cpu.Period != nil) ==> uledger(r, u).cpuPeriod == old(uledger(r, u).cpuPeriod)) && ((ures(u).Cpu != nil && ures(u).Cpu.Period != nil) ==> old(uledger(r, u).cpuPeriod) == "" && uledger(r, u).cpuPeriod == plugin && resources.Cpu.Period != nil && resources.Cpu.Period.Value == ures(u).Cpu.Period.Value)
+//@   keep before resultOwners.claimCpuRealtimeRuntime#1 [cpuRealtimeRuntime.own] uledger(r, u).cpuRealtimeRuntime == old(uledger(r, u).cpuRealtimeRuntime)
+//@   keep after resultOwners.claimCpuRealtimeRuntime#1 [cpuRealtimeRuntime.post] (!(ures(u).Cpu != nil && ures(u).Cpu.RealtimeRuntime != nil) ==> uledger(r, u).cpuRealtimeRuntime == old(uledger(r, u).cpuRealtimeRuntime)) && ((ures(u).Cpu != nil && ures(u).Cpu.RealtimeRuntime != nil) ==> old(uledger(r, u).cpuRealtimeRuntime) == "" && uledger(r, u).cpuRealtimeRuntime == plugin && resources.Cpu.RealtimeRuntime != nil && resources.Cpu.RealtimeRuntime.Value == ures(u).Cpu.RealtimeRuntime.Value)
+//@   keep before resultOwners.claimCpuRealtimePeriod#1 [cpuRealtimePeriod.own] uledger(r, u).cpuRealtimePeriod == old(uledger(r, u).cpuRealtimePeriod)
+//@   keep after resultOwners.claimCpuRealtimePeriod#1 [cpuRealtimePeriod.post] (!(ures(u).Cpu != nil && ures(u).Cpu.RealtimePeriod != nil) ==> uledger(r, u).cpuRealtimePeriod == old(uledger(r, u).cpuRealtimePeriod)) && ((ures(u).Cpu != nil && ures(u).Cpu.RealtimePeriod != nil) ==> old(uledger(r, u).cpuRealtimePeriod) == "" && uledger(r, u).cpuRealtimePeriod == plugin && resources.Cpu.RealtimePeriod != nil && resources.Cpu.RealtimePeriod.Value == ures(u).Cpu.RealtimePeriod.Value)
+//@   keep before resultOwners.claimCpusetCpus#1 [cpusetCpus.own] uledger(r, u).cpusetCpus == old(uledger(r, u).cpusetCpus)
+//@   keep after resultOwners.claimCpusetCpus#1 [cpusetCpus.post] (!(ures(u).Cpu != nil && ures(u).Cpu.Cpus != "") ==> uledger(r, u).cpusetCpus == old(uledger(r, u).cpusetCpus)) && ((ures(u).Cpu != nil && ures(u).Cpu.Cpus != "") ==> old(uledger(r, u).cpusetCpus) == "" && uledger(r, u).cpusetCpus == plugin && resources.Cpu.Cpus == ures(u).Cpu.Cpus)
+//@   keep before resultOwners.claimCpusetMems#1 [cpusetMems.own] uledger(r, u).cpusetMems == old(uledger(r, u).cpusetMems)
+//@   keep after resultOwners.claimCpusetMems#1 [cpusetMems.post] (!(ures(u).Cpu != nil && ures(u).Cpu.Mems != "") ==> uledger(r, u).cpusetMems == old(uledger(r, u).cpusetMems)) && ((ures(u).Cpu != nil && ures(u).Cpu.Mems != "") ==> old(uledger(r, u).cpusetMems) == "" && uledger(r, u).cpusetMems == plugin && resources.Cpu.Mems == ures(u).Cpu.Mems)
+//@   keep before resultOwners.claimBlockioClass#1 [blockioClass.own] uledger(r, u).blockioClass == old(uledger(r, u).blockioClass)
+//@   keep after resultOwners.claimBlockioClass#1 [blockioClass.post] (!(ures(u).BlockioClass != nil) ==> uledger(r, u).blockioClass == old(uledger(r, u).blockioClass)) && ((ures(u).BlockioClass != nil) ==> old(uledger(r, u).blockioClass) == "" && uledger(r, u).blockioClass == plugin && resources.BlockioClass != nil && resources.BlockioClass.Value == ures(u).BlockioClass.Value)
+//@   keep before resultOwners.claimRdtClass#1 [rdtClass.own] uledger(r, u).rdtClass == old(uledger(r, u).rdtClass)
+//@   keep after resultOwners.claimRdtClass#1 [rdtClass.post] (!(ures(u).RdtClass != nil) ==> uledger(r, u).rdtClass == old(uledger(r, u).rdtClass)) && ((ures(u).RdtClass != nil) ==> old(uledger(r, u).rdtClass) == "" && uledger(r, u).rdtClass == plugin && resources.RdtClass != nil && resources.RdtClass.Value == ures(u).RdtClass.Value)
+//@   keep before resultOwners.claimPidsLimit#1 [pidsLimit.own] uledger(r, u).pidsLimit == old(uledger(r, u).pidsLimit)
+//@   keep after resultOwners.claimPidsLimit#1 [pidsLimit.post] (!(ures(u).Pids != nil) ==> uledger(r, u).pidsLimit == old(uledger(r, u).pidsLimit)) && ((ures(u).Pids != nil) ==> old(uledger(r, u).pidsLimit) == "" && uledger(r, u).pidsLimit == plugin && resources.Pids != nil && resources.Pids.Limit == ures(u).Pids.Limit)
+//@   ensures [noop]   u.Linux == nil || u.Linux.Resources == nil ==> result == nil && reply.Linux.Resources == old(reply.Linux.Resources)
+//@   ensures [stage]  result != nil ==> reply.Linux.Resources == old(reply.Linux.Resources) && (r.request.update != nil ==> r.request.update.LinuxResources == old(r.request.update.LinuxResources))
+//@   ensures [commit] result == nil && u.Linux != nil && u.Linux.Resources != nil ==> reply.Linux.Resources != nil && fresh(reply.Linux.Resources)
+//@                    && (old(ownUpdate(r, u)) ==> r.request.update.LinuxResources != nil && fresh(r.request.update.LinuxResources) && r.request.update.LinuxResources != reply.Linux.Resources)
+//@   ensures [memLimit.c01] u.Linux != nil && u.Linux.Resources != nil && (ures(u).Memory != nil && ures(u).Memory.Limit != nil) && old(uledger(r, u).memLimit) != "" ==> result != nil
+//@   ensures [memLimit.set] result == nil && u.Linux != nil && u.Linux.Resources != nil && (ures(u).Memory != nil && ures(u).Memory.Limit != nil) ==> uledger(r, u).memLimit == plugin && reply.Linux.Resources.Memory.Limit != nil && reply.Linux.Resources.Memory.Limit.Value == ures(u).Memory.Limit.Value
+//@                    && (old(ownUpdate(r, u)) ==> r.request.update.LinuxResources.Memory.Limit != nil && r.request.update.LinuxResources.Memory.Limit.Value == ures(u).Memory.Limit.Value)
+//@   ensures [memLimit.keep] u.Linux != nil && u.Linux.Resources != nil && !(ures(u).Memory != nil && ures(u).Memory.Limit != nil) ==> uledger(r, u).memLimit == old(uledger(r, u).memLimit)
+//@   ensures [memReservation.c01] u.Linux != nil && u.Linux.Resources != nil && (ures(u).Memory != nil && ures(u).Memory.Reservation != nil) && old(uledger(r, u).memReservation) != "" ==> result != nil
+//@   ensures [memReservation.set] result == nil && u.Linux != nil && u.Linux.Resources != nil && (ures(u).Memory != nil && ures(u).Memory.Reservation != nil) ==> uledger(r, u).memReservation == plugin && reply.Linux.Resources.Memory.Reservation != nil && reply.Linux.Resources.Memory.Reservation.Value == ures(u).Memory.Reservation.Value
+//@                    && (old(ownUpdate(r, u)) ==> r.request.update.LinuxResources.Memory.Reservation != nil && r.request.update.LinuxResources.Memory.Reservation.Value == ures(u).Memory.Reservation.Value)
+//@   ensures [memReservation.keep] u.Linux != nil && u.Linux.Resources != nil && !(ures(u).Memory != nil && ures(u).Memory.Reservation != nil) ==> uledger(r, u).memReservation == old(uledger(r, u).memReservation)
+//@   ensures [memSwapLimit.c01] u.Linux != nil && u.Linux.Resources != nil && (ures(u).Memory != nil && ures(u).Memory.Swap != nil) && old(uledger(r, u).memSwapLimit) != "" ==> result != nil
+//@   ensures [memSwapLimit.set] result == nil && u.Linux != nil && u.Linux.Resources != nil && (ures(u).Memory != nil && ures(u).Memory.Swap != nil) ==> uledger(r, u).memSwapLimit == plugin && reply.Linux.Resources.Memory.Swap != nil && reply.Linux.Resources.Memory.Swap.Value == ures(u).Memory.Swap.Value
+//@                    && (old(ownUpdate(r, u)) ==> r.request.update.LinuxResources.Memory.Swap != nil && r.request.update.LinuxResources.Memory.Swap.Value == ures(u).Memory.Swap.Value)
+//@   ensures [memSwapLimit.keep] u.Linux != nil && u.Linux.Resources != nil && !(ures(u).Memory != nil && ures(u).Memory.Swap != nil) ==> uledger(r, u).memSwapLimit == old(uledger(r, u).memSwapLimit)
+//@   ensures [memKernelLimit.c01] u.Linux != nil && u.Linux.Resources != nil && (ures(u).Memory != nil && ures(u).Memory.Kernel != nil) && old(uledger(r, u).memKernelLimit) != "" ==> result != nil
+//@   ensures [memKernelLimit.set] result == nil && u.Linux != nil && u.Linux.Resources != nil && (ures(u).Memory != nil && ures(u).Memory.Kernel != nil) ==> uledger(r, u).memKernelLimit == plugin && reply.Linux.Resources.Memory.Kernel != nil && reply.Linux.Resources.Memory.Kernel.Value == ures(u).Memory.Kernel.Value
+//@                    && (old(ownUpdate(r, u)) ==> r.request.update.LinuxResources.Memory.Kernel != nil && r.request.update.LinuxResources.Memory.Kernel.Value == ures(u).Memory.Kernel.Value)
+//@   ensures [memKernelLimit.keep] u.Linux != nil && u.Linux.Resources != nil && !(ures(u).Memory != nil && ures(u).Memory.Kernel != nil) ==> uledger(r, u).memKernelLimit == old(uledger(r, u).memKernelLimit)
+//@   ensures [memTCPLimit.c01] u.Linux != nil && u.Linux.Resources != nil && (ures(u).Memory != nil && ures(u).Memory.KernelTcp != nil) && old(uledger(r, u).memTCPLimit) != "" ==> result != nil
+//@   ensures [memTCPLimit.set] result == nil && u.Linux != nil && u.Linux.Resources != nil && (ures(u).Memory != nil && ures(u).Memory.KernelTcp != nil) ==> uledger(r, u).memTCPLimit == plugin && reply.Linux.Resources.Memory.KernelTcp != nil && reply.Linux.Resources.Memory.KernelTcp.Value == ures(u).Memory.KernelTcp.Value
+//@                    && (old(ownUpdate(r, u)) ==> r.request.update.LinuxResources.Memory.KernelTcp != nil && r.request.update.LinuxResources.Memory.KernelTcp.Value == ures(u).Memory.KernelTcp.Value)
+//@   ensures [memTCPLimit.keep] u.Linux != nil && u.Linux.Resources != nil && !(ures(u).Memory != nil && ures(u).Memory.KernelTcp != nil) ==> uledger(r, u).memTCPLimit == old(uledger(r, u).memTCPLimit)
+//@   ensures [memSwappiness.c01] u.Linux != nil && u.Linux.Resources != nil && (ures(u).Memory != nil && ures(u).Memory.Swappiness != nil) && old(uledger(r, u).memSwappiness) != "" ==> result != nil
+//@   ensures [memSwappiness.set] result == nil && u.Linux != nil && u.Linux.Resources != nil && (ures(u).Memory != nil && ures(u).Memory.Swappiness != nil) ==> uledger(r, u).memSwappiness == plugin && reply.Linux.Resources.Memory.Swappiness != nil && reply.Linux.Resources.Memory.Swappiness.Value == ures(u).Memory.Swappiness.Value
+//@                    && (old(ownUpdate(r, u)) ==> r.request.update.LinuxResources.Memory.Swappiness != nil && r.request.update.LinuxResources.Memory.Swappiness.Value == ures(u).Memory.Swappiness.Value)
+//@   ensures [memSwappiness.keep] u.Linux != nil && u.Linux.Resources != nil && !(ures(u).Memory != nil && ures(u).Memory.Swappiness != nil) ==> uledger(r, u).memSwappiness == old(uledger(r, u).memSwappiness)
+//@   ensures [memDisableOomKiller.c01] u.Linux != nil && u.Linux.Resources != nil && (ures(u).Memory != nil && ures(u).Memory.DisableOomKiller != nil) && old(uledger(r, u).memDisableOomKiller) != "" ==> result != nil
+//@   ensures [memDisableOomKiller.set] result == nil && u.Linux != nil && u.Linux.Resources != nil && (ures(u).Memory != nil && ures(u).Memory.DisableOomKiller != nil) ==> uledger(r, u).memDisableOomKiller == plugin && reply.Linux.Resources.Memory.DisableOomKiller != nil && reply.Linux.Resources.Memory.DisableOomKiller.Value == ures(u).Memory.DisableOomKiller.Value
+//@                    && (old(ownUpdate(r, u)) ==> r.request.update.LinuxResources.Memory.DisableOomKiller != nil && r.request.update.LinuxResources.Memory.DisableOomKiller.Value == ures(u).Memory.DisableOomKiller.Value)
+//@   ensures [memDisableOomKiller.keep] u.Linux != nil && u.Linux.Resources != nil && !(ures(u).Memory != nil && ures(u).Memory.DisableOomKiller != nil) ==> uledger(r, u).memDisableOomKiller == old(uledger(r, u).memDisableOomKiller)
+//@   ensures [memUseHierarchy.c01] u.Linux != nil && u.Linux.Resources != nil && (ures(u).Memory != nil && ures(u).Memory.UseHierarchy != nil) && old(uledger(r, u).memUseHierarchy) != "" ==> result != nil
+//@   ensures [memUseHierarchy.set] result == nil && u.Linux != nil && u.Linux.Resources != nil && (ures(u).Memory != nil && ures(u).Memory.UseHierarchy != nil) ==> uledger(r, u).memUseHierarchy == plugin && reply.Linux.Resources.Memory.UseHierarchy != nil && reply.Linux.Resources.Memory.UseHierarchy.Value == ures(u).Memory.UseHierarchy.Value
+//@                    && (old(ownUpdate(r, u)) ==> r.request.update.LinuxResources.Memory.UseHierarchy != nil && r.request.update.LinuxResources.Memory.UseHierarchy.Value == ures(u).Memory.UseHierarchy.Value)
+//@   ensures [memUseHierarchy.keep] u.Linux != nil && u.Linux.Resources != nil && !(ures(u).Memory != nil && ures(u).Memory.UseHierarchy != nil) ==> uledger(r, u).memUseHierarchy == old(uledger(r, u).memUseHierarchy)
+//@   ensures [cpuShares.c01] u.Linux != nil && u.Linux.Resources != nil && (ures(u).Cpu != nil && ures(u).Cpu.Shares != nil) && old(uledger(r, u).cpuShares) != "" ==> result != nil
+//@   ensures [cpuShares.set] result == nil && u.Linux != nil && u.Linux.Resources != nil && (ures(u).Cpu != nil && ures(u).Cpu.Shares != nil) ==> uledger(r, u).cpuShares == plugin && reply.Linux.Resources.Cpu.Shares != nil && reply.Linux.Resources.Cpu.Shares.Value == ures(u).Cpu.Shares.Value
+//@                    && (old(ownUpdate(r, u)) ==> r.request.update.LinuxResources.Cpu.Shares != nil && r.request.update.LinuxResources.Cpu.Shares.Value == ures(u).Cpu.Shares.Value)
+//@   ensures [cpuShares.keep] u.Linux != nil && u.Linux.Resources != nil && !(ures(u).Cpu != nil && ures(u).Cpu.Shares != nil) ==> uledger(r, u).cpuShares == old(uledger(r, u).cpuShares)
+//@   ensures [cpuQuota.c01] u.Linux != nil && u.Linux.Resources != nil && (ures(u).Cpu != nil && ures(u).Cpu.Quota != nil) && old(uledger(r, u).cpuQuota) != "" ==> result != nil
+//@   ensures [cpuQuota.set] result == nil && u.Linux != nil && u.Linux.Resources != nil && (ures(u).Cpu != nil && ures(u).Cpu.Quota != nil) ==> uledger(r, u).cpuQuota == plugin && reply.Linux.Resources.Cpu.Quota != nil && reply.Linux.Resources.Cpu.Quota.Value == ures(u).Cpu.Quota.Value
+//@                    && (old(ownUpdate(r, u)) ==> r.request.update.LinuxResources.Cpu.Quota != nil && r.request.update.LinuxResources.Cpu.Quota.Value == ures(u).Cpu.Quota.Value)
+//@   ensures [cpuQuota.keep] u.Linux != nil && u.Linux.Resources != nil && !(ures(u).Cpu != nil && ures(u).Cpu.Quota != nil) ==> uledger(r, u).cpuQuota == old(uledger(r, u).cpuQuota)
+//@   ensures [cpuPeriod.c01] u.Linux != nil && u.Linux.Resources != nil && (ures(u).Cpu != nil && ures(u).Cpu.Period != nil) && old(uledger(r, u).cpuPeriod) != "" ==> result != nil
+//@   ensures [cpuPeriod.set] result == nil && u.Linux != nil && u.Linux.Resources != nil && (ures(u).Cpu != nil && ures(u).Cpu.Period != nil) ==> uledger(r, u).cpuPeriod == plugin && reply.Linux.Resources.Cpu.Period != nil && reply.Linux.Resources.Cpu.Period.Value == ures(u).Cpu.Period.Value
+//@                    && (old(ownUpdate(r, u)) ==> r.request.update.LinuxResources.Cpu.Period != nil && r.request.update.LinuxResources.Cpu.Period.Value == ures(u).Cpu.Period.Value)
+//@   ensures [cpuPeriod.keep] u.Linux != nil && u.Linux.Resources != nil && !(ures(u).Cpu != nil && ures(u).Cpu.Period != nil) ==> uledger(r, u).cpuPeriod == old(uledger(r, u).cpuPeriod)
+//@   ensures [cpuRealtimeRuntime.c01] u.Linux != nil && u.Linux.Resources != nil && (ures(u).Cpu != nil && ures(u).Cpu.RealtimeRuntime != nil) && old(uledger(r, u).cpuRealtimeRuntime) != "" ==> result != nil
+//@   ensures [cpuRealtimeRuntime.set] result == nil && u.Linux != nil && u.Linux.Resources != nil && (ures(u).Cpu != nil && ures(u).Cpu.RealtimeRuntime != nil) ==> uledger(r, u).cpuRealtimeRuntime == plugin && reply.Linux.Resources.Cpu.RealtimeRuntime != nil && reply.Linux.Resources.Cpu.RealtimeRuntime.Value == ures(u).Cpu.RealtimeRuntime.Value
+//@                    && (old(ownUpdate(r, u)) ==> r.request.update.LinuxResources.Cpu.RealtimeRuntime != nil && r.request.update.LinuxResources.Cpu.RealtimeRuntime.Value == ures(u).Cpu.RealtimeRuntime.Value)
+//@   ensures [cpuRealtimeRuntime.keep] u.Linux != nil && u.Linux.Resources != nil && !(ures(u).Cpu != nil && ures(u).Cpu.RealtimeRuntime != nil) ==> uledger(r, u).cpuRealtimeRuntime == old(uledger(r, u).cpuRealtimeRuntime)
+//@   ensures [cpuRealtimePeriod.c01] u.Linux != nil && u.Linux.Resources != nil && (ures(u).Cpu != nil && ures(u).Cpu.RealtimePeriod != nil) && old(uledger(r, u).cpuRealtimePeriod) != "" ==> result != nil
+//@   ensures [cpuRealtimePeriod.set] result == nil && u.Linux != nil && u.Linux.Resources != nil && (ures(u).Cpu != nil && ures(u).Cpu.RealtimePeriod != nil) ==> uledger(r, u).cpuRealtimePeriod == plugin && reply.Linux.Resources.Cpu.RealtimePeriod != nil && reply.Linux.Resources.Cpu.RealtimePeriod.Value == ures(u).Cpu.RealtimePeriod.Value
+//@                    && (old(ownUpdate(r, u)) ==> r.request.update.LinuxResources.Cpu.RealtimePeriod != nil && r.request.update.LinuxResources.Cpu.RealtimePeriod.Value == ures(u).Cpu.RealtimePeriod.Value)
+//@   ensures [cpuRealtimePeriod.keep] u.Linux != nil && u.Linux.Resources != nil && !(ures(u).Cpu != nil && ures(u).Cpu.RealtimePeriod != nil) ==> uledger(r, u).cpuRealtimePeriod == old(uledger(r, u).cpuRealtimePeriod)
+//@   ensures [cpusetCpus.c01] u.Linux != nil && u.Linux.Resources != nil && (ures(u).Cpu != nil && ures(u).Cpu.Cpus != "") && old(uledger(r, u).cpusetCpus) != "" ==> result != nil
+//@   ensures [cpusetCpus.set] result == nil && u.Linux != nil && u.Linux.Resources != nil && (ures(u).Cpu != nil && ures(u).Cpu.Cpus != "") ==> uledger(r, u).cpusetCpus == plugin && reply.Linux.Resources.Cpu.Cpus == ures(u).Cpu.Cpus
+//@                    && (old(ownUpdate(r, u)) ==> r.request.update.LinuxResources.Cpu.Cpus == ures(u).Cpu.Cpus)
+//@   ensures [cpusetCpus.keep] u.Linux != nil && u.Linux.Resources != nil && !(ures(u).Cpu != nil && ures(u).Cpu.Cpus != "") ==> uledger(r, u).cpusetCpus == old(uledger(r, u).cpusetCpus)
+//@   ensures [cpusetMems.c01] u.Linux != nil && u.Linux.Resources != nil && (ures(u).Cpu != nil && ures(u).Cpu.Mems != "") && old(uledger(r, u).cpusetMems) != "" ==> result != nil
+//@   ensures [cpusetMems.set] result == nil && u.Linux != nil && u.Linux.Resources != nil && (ures(u).Cpu != nil && ures(u).Cpu.Mems != "") ==> uledger(r, u).cpusetMems == plugin && reply.Linux.Resources.Cpu.Mems == ures(u).Cpu.Mems
+//@                    && (old(ownUpdate(r, u)) ==> r.request.update.LinuxResources.Cpu.Mems == ures(u).Cpu.Mems)
+//@   ensures [cpusetMems.keep] u.Linux != nil && u.Linux.Resources != nil && !(ures(u).Cpu != nil && ures(u).Cpu.Mems != "") ==> uledger(r, u).cpusetMems == old(uledger(r, u).cpusetMems)
+//@   ensures [blockioClass.c01] u.Linux != nil && u.Linux.Resources != nil && (ures(u).BlockioClass != nil) && old(uledger(r, u).blockioClass) != "" ==> result != nil
+//@   ensures [blockioClass.set] result == nil && u.Linux != nil && u.Linux.Resources != nil && (ures(u).BlockioClass != nil) ==> uledger(r, u).blockioClass == plugin && reply.Linux.Resources.BlockioClass != nil && reply.Linux.Resources.BlockioClass.Value == ures(u).BlockioClass.Value
+//@                    && (old(ownUpdate(r, u)) ==> r.request.update.LinuxResources.BlockioClass != nil && r.request.update.LinuxResources.BlockioClass.Value == ures(u).BlockioClass.Value)
+//@   ensures [blockioClass.keep] u.Linux != nil && u.Linux.Resources != nil && !(ures(u).BlockioClass != nil) ==> uledger(r, u).blockioClass == old(uledger(r, u).blockioClass)
+//@   ensures [rdtClass.c01] u.Linux != nil && u.Linux.Resources != nil && (ures(u).RdtClass != nil) && old(uledger(r, u).rdtClass) != "" ==> result != nil
+//@   ensures [rdtClass.set] result == nil && u.Linux != nil && u.Linux.Resources != nil && (ures(u).RdtClass != nil) ==> uledger(r, u).rdtClass == plugin && reply.Linux.Resources.RdtClass != nil && reply.Linux.Resources.RdtClass.Value == ures(u).RdtClass.Value
+//@                    && (old(ownUpdate(r, u)) ==> r.request.update.LinuxResources.RdtClass != nil && r.request.update.LinuxResources.RdtClass.Value == ures(u).RdtClass.Value)
+//@   ensures [rdtClass.keep] u.Linux != nil && u.Linux.Resources != nil && !(ures(u).RdtClass != nil) ==> uledger(r, u).rdtClass == old(uledger(r, u).rdtClass)
+//@   ensures [pidsLimit.c01] u.Linux != nil && u.Linux.Resources != nil && (ures(u).Pids != nil) && old(uledger(r, u).pidsLimit) != "" ==> result != nil
+//@   ensures [pidsLimit.set] result == nil && u.Linux != nil && u.Linux.Resources != nil && (ures(u).Pids != nil) ==> uledger(r, u).pidsLimit == plugin && reply.Linux.Resources.Pids != nil && reply.Linux.Resources.Pids.Limit == ures(u).Pids.Limit
+//@                    && (old(ownUpdate(r, u)) ==> r.request.update.LinuxResources.Pids != nil && r.request.update.LinuxResources.Pids.Limit == ures(u).Pids.Limit)
+//@   ensures [pidsLimit.keep] u.Linux != nil && u.Linux.Resources != nil && !(ures(u).Pids != nil) ==> uledger(r, u).pidsLimit == old(uledger(r, u).pidsLimit)
+//@   loop 1 modifies mapkey(r.owners, u.ContainerId), uledger(r, u).hugepageLimits, map(uledger(r, u).hugepageLimits), resources.HugepageLimits, elems(resources.HugepageLimits)
+//@   loop 1 invariant 0 <= idx + 1 && idx + 1 <= len(ures(u).HugepageLimits)
+//@   loop 1 invariant (base(resources.HugepageLimits) == pre(base(resources.HugepageLimits)) || prefresh(resources.HugepageLimits)) && sep(base(resources.HugepageLimits), base(ures(u).HugepageLimits))
+//@   loop 1 invariant (pre(uledger(r, u).hugepageLimits) != nil ==> uledger(r, u).hugepageLimits == pre(uledger(r, u).hugepageLimits)) && (pre(uledger(r, u).hugepageLimits) == nil ==> uledger(r, u).hugepageLimits == nil || prefresh(uledger(r, u).hugepageLimits))
+//@   loop 1 invariant noNilHP(resources.HugepageLimits)
+//@   loop 1 invariant pre(has(r.owners, u.ContainerId)) ==> has(r.owners, u.ContainerId) && uledger(r, u) == pre(uledger(r, u))
+//@   loop 1 invariant !pre(has(r.owners, u.ContainerId)) && has(r.owners, u.ContainerId) ==> prefresh(uledger(r, u))
+//@   loop 2 modifies mapkey(r.owners, u.ContainerId), uledger(r, u).unified, map(uledger(r, u).unified), map(resources.Unified)
+//@   loop 2 invariant resources.Unified != nil
+//@   loop 2 invariant (pre(uledger(r, u).unified) != nil ==> uledger(r, u).unified == pre(uledger(r, u).unified)) && (pre(uledger(r, u).unified) == nil ==> uledger(r, u).unified == nil || prefresh(uledger(r, u).unified))
+//@   loop 2 invariant pre(has(r.owners, u.ContainerId)) ==> has(r.owners, u.ContainerId) && uledger(r, u) == pre(uledger(r, u))
+//@   loop 2 invariant !pre(has(r.owners, u.ContainerId)) && has(r.owners, u.ContainerId) ==> prefresh(uledger(r, u))
+
+// ---------------------------------------------------------------------------
 // Plugin relays (plugin.go) and request dispatch (adaptation.go)   [generated by gen_relays.py]
 // ---------------------------------------------------------------------------
 // An implementation call is a call of the wasm or the ttrpc implementation; both are
